@@ -246,7 +246,12 @@ def judge(c, cff, root, mod, pkg, where, expect, meta, label):
     rc, text, diags = run_cff_pkg(cff, root, mod, pkg)
     if ("panic:" in text or "fatal error:" in text) and "goroutine " in text:
         c.violation("C13", "cff died with a Go panic on the %s corpus:\n%s" % (label, text[-1500:]), dict(kind="wf", label=label))
-        raise Inconclusive("cff crashed on the %s corpus" % label)
+        if not any(expect.values()):
+            # every flow of this package is well-formed: dying is not accepting them
+            c.violation("C14", "cff did not accept a package of well-formed flows (%s): it died with a Go panic:\n%s" % (label, text[-800:]),
+                        dict(kind="wf", label=label))
+        c.notes.append("cff crashed on the %s corpus: its flows were not judged one by one" % label)
+        return 0
     d = os.path.join(root, pkg)
     byfile = {}
     for name, (fn, a, b) in where.items():
